@@ -66,7 +66,7 @@ Judge(c, s, e) ==
          LET R == Reach(G, e.root)
              Wt == TLCEval(WeightOf(s, e, G))
              es == PairSet(e.edges)
-             tot == LET RECURSIVE Sm(_) Sm(T) == IF T = {} THEN 0 ELSE LET x == CHOOSE y \in T : TRUE IN Wt[x] + Sm(T \ {x}) IN Sm(es)
+             tot == LET RECURSIVE Sm(_) Sm(T) == IF T = {} THEN 0 ELSE LET x == CHOOSE y \in T : TRUE IN Wt[x] + Sm(T \ {x}) IN IF es \subseteq G.A THEN Sm(es) ELSE -1      \* clauses are evaluated eagerly: guard the lookups
          IN Check(<< << es \subseteq G.A /\ \A p \in es : p[1] < p[2], "tree_edges_are_admissible_adjacencies" >>,
                      << Len(e.edges) = Cardinality(es) /\ IsAcyclic(G.n, es) /\ GComps(GNodes(G), SymClose(es)) = Components(G),
                         "edge_list_is_a_spanning_forest" >>,
